@@ -77,7 +77,8 @@ def gen_config(rng, prop, tier="quick"):
         p_reset = 0.8 if prop == "C10" else 0.3
         for j in range(2):
             if rng.random() < p_reset:
-                r = {"attr": f"r{j}", "default": rng.choice([0, False, None, 1.5, "idle", 7]), "inherited": rng.random() < 0.3, "override": None}
+                r = {"attr": f"r{j}" if rng.random() < 0.85 else f"_r{j}",       # "private" names are reset like any other
+                     "default": rng.choice([0, False, None, 1.5, "idle", 7]), "inherited": rng.random() < 0.3, "override": None}
                 if r["inherited"] and rng.random() < 0.4:
                     # the subclass redeclares the inherited marker with another default: the component's own declaration counts
                     r["override"] = "marker"
@@ -104,8 +105,13 @@ def gen_config(rng, prop, tier="quick"):
         for j in range(2):
             if rng.random() < p_fb:
                 fbs.append(_gen_fb(rng, j))
+        late = None
+        if "setup" in hooks and ("on_enable" in hooks or "on_disable" in hooks) and rng.random() < (0.3 if prop == "C06" else 0.1):
+            # the component installs its on_enable / on_disable on the instance in setup() (the first moment injected
+            # variables exist); "replace": the class also has hooks of those names, which must never be called
+            late = rng.choice(["assign", "replace"])
         comps.append({"name": f"c{i}", "hooks": hooks, "resets": resets, "plain_attrs": plain, "feedbacks": fbs,
-                      "inject_dep": rng.random() < 0.5, "inject_comp": None, "in_base_robot": False})
+                      "inject_dep": rng.random() < 0.5, "inject_comp": None, "in_base_robot": False, "late_hooks": late})
     for i, c in enumerate(comps):
         if len(comps) > 1 and rng.random() < 0.4:
             c["inject_comp"] = rng.choice([o["name"] for o in comps if o is not c])
@@ -157,13 +163,15 @@ def gen_config(rng, prop, tier="quick"):
         "cap_waits": rng.choice([4, 8, 12, 20, 30, 45]) if tier != "thorough" else rng.choice([4, 8, 12, 20, 30, 45, 70, 100]),
         "period_on_instance": rng.random() < 0.15,
         "boot_us": (rng.choice([0, 64, 6400]) * GRID_US) if dyadic else rng.choice([0, 181546, 5_000_003]),
+        # legal settings of the error-report rate limit: never repeat (inf), always (0), NaN
+        "error_report_interval": rng.choice(["inf", "nan", 0, 1e-9]) if rng.random() < (0.3 if prop == "C07" else 0.08) else None,
     }
     return cfg
 
 
 def _gen_fb(rng, j, owner="comp"):
     hint = rng.choice(["int", "float", "bool", "str", "floats", "ints", "strs", "bools", "rot", "trs", "cs", None, None])
-    name = rng.choice([f"get_v{j}", f"v{j}", f"get_state{j}", f"is_ok{j}"])
+    name = rng.choice([f"get_v{j}", f"v{j}", f"get_state{j}", f"is_ok{j}", f"get_v{j}", f"v{j}", f"_read{j}"])
     fb = {"name": name, "key": (rng.choice([f"k{j}", f"sub/key{j}", "Name With Space" + str(j), f"get_k{j}", f"get_{name}"]) if rng.random() < 0.35 else None), "hint": hint,
           "inplace": False, "constant": rng.random() < 0.25, "quoted_hint": rng.random() < 0.25}
     if hint is None:
@@ -494,6 +502,11 @@ def generate(seed, prop, tier, index=0):
         for _ in range(rng.choice([1, 1, 2])):
             add(rng.choice(["wait", "wait", "robot.disabledPeriodic", "robot.teleopPeriodic", "robot.autonomousInit"]), rng.randint(1, max(2, cap // 2)),
                 ["select", rng.choice([m["name"] for m in cfg["modes"]] + ["None", "bogus"])])
+    # ---- use_teleop_in_autonomous changed at run time, outside autonomous periods (it counts when a period starts)
+    if rng.random() < (0.3 if prop == "C05" else 0.1):
+        for _ in range(rng.choice([1, 2, 3])):
+            add(rng.choice(["robot.disabledPeriodic", "robot.disabledPeriodic", "robot.disabledInit", "robot.teleopInit", "robot.testPeriodic"]),
+                rng.randint(1, 8), ["utia", int(rng.random() < 0.5)])
     # ---- FMS cable plugged / unplugged at a wake-up
     if rng.random() < 0.15:
         add("wait", rng.randint(1, cap), ["ds", 1, rng.choice(["teleop", "auto"]), int(rng.random() < 0.5)])
@@ -503,7 +516,7 @@ def generate(seed, prop, tier, index=0):
         # a component hook that raises during a match must not cost the other components their hooks
         for _ in range(rng.choice([1, 1, 2])):
             if sites["lifecycle"]:
-                add(rng.choice(sites["lifecycle"] + sites["init"]), rng.choice([1, 1, 2, 3, "*"]), ["raise"])
+                add(rng.choice(sites["lifecycle"] + sites["init"] + sites["mode"]), rng.choice([1, 1, 2, 3, "*"]), ["raise"])
     if prop == "C07":
         fsites = sites["lifecycle"] + sites["execute"] + sites["init"] + sites["periodic"] + sites["fb"] + sites["mode"]
         nf = rng.choice([1, 1, 1, 2, 3])
@@ -695,10 +708,22 @@ def build_sources(cfg):
                 L.append(f"    {a['attr']} = {_lit(a['default'])}")
         L.append("    def __init__(self):")
         L.append("        SIM.ctor(self, type(self).__name__)")
+        late = c.get("late_hooks") if "setup" in c["hooks"] else None
         for h in ("setup", "on_enable", "on_disable"):
             if h in c["hooks"]:
+                if late and h != "setup":
+                    L.append(f"    def _late_{h}(self):")
+                    L.append(f"        SIM.cb(SIM.nm(self) + '.{h}')")
+                    if late == "replace":
+                        L.append(f"    def {h}(self):")
+                        L.append(f"        SIM.cb(SIM.nm(self) + '.{h}_of_the_class_although_replaced')")
+                    continue
                 L.append(f"    def {h}(self):")
                 L.append(f"        SIM.cb(SIM.nm(self) + '.{h}')")
+                if late and h == "setup":
+                    for h2 in ("on_enable", "on_disable"):
+                        if h2 in c["hooks"]:
+                            L.append(f"        self.{h2} = self._late_{h2}")
         L.append("    def execute(self):")
         L.append("        SIM.cb(SIM.nm(self) + '.execute')")
         for fb in c["feedbacks"]:
@@ -725,6 +750,9 @@ def build_sources(cfg):
     else:
         L.append(f"    control_loop_wait_time = {cfg['period']!r}")
     L.append(f"    use_teleop_in_autonomous = {bool(cfg['use_teleop_in_auto'])}")
+    if cfg.get("error_report_interval") is not None:
+        eri = cfg["error_report_interval"]
+        L.append(f"    error_report_interval = {('float(' + repr(eri) + ')') if isinstance(eri, str) else repr(eri)}")
     if not cfg["split_robot"] or cfg.get("period_on_instance"):
         L.append("    def createObjects(self):")
         L.append("        self.dep0 = Dep()")
@@ -803,6 +831,7 @@ def normalise(cfg):
             o = byname[c["clone_of"]]
             for k in ("hooks", "resets", "plain_attrs", "feedbacks", "inject_dep", "inject_comp"):
                 c[k] = o[k]
+            c["late_hooks"] = o.get("late_hooks")
         if c.get("extends") and (c["extends"] not in names or byname[c["extends"]].get("clone_of") or byname[c["extends"]].get("extends")
                                  or byname[c["extends"]].get("machine")):
             c["extends"] = None
@@ -811,6 +840,7 @@ def normalise(cfg):
             o = byname[c["extends"]]
             for k in ("hooks", "plain_attrs", "feedbacks", "inject_dep", "inject_comp"):
                 c[k] = o[k]
+            c["late_hooks"] = o.get("late_hooks")
             own = [r for r in c["resets"] if r.get("own")]
             own_names = {r["attr"] for r in own}
             c["resets"] = [dict(r) for r in o["resets"] if r["attr"] not in own_names] + own
@@ -963,6 +993,10 @@ class _Sim:
             elif k == "autosel":
                 self.autosel_pub.set(a[1])
                 self.fault("dashboard_auto_selector")
+            elif k == "utia":
+                if self.robot is not None:
+                    self.robot.use_teleop_in_autonomous = bool(a[1])
+                    self.fault("use_teleop_in_autonomous_changed_at_run_time")
             elif k == "select":
                 self.select_pub.set(a[1])
                 self.fault("dashboard_chooser_selection")
